@@ -155,7 +155,9 @@ theorem landM_leaf (k : Int) (c : Option (Nat × Bool)) (t : Tree) : ∃ p, land
 theorem alloc_fields (s : St) :
     s.alloc.2.multi = s.multi ∧ s.alloc.2.t = s.t ∧ s.alloc.2.order = s.order ∧ s.alloc.2.size = s.size := by
   unfold St.alloc
-  split <;> simp
+  split
+  · simp
+  · split <;> simp
 
 /-- the state a plain insert produces (comparison counts aside) -/
 theorem insertRoot_t (s : St) (k v : Int) (c0 : Nat) :
